@@ -2,7 +2,7 @@
 # seedrun2.sh <ID> <n> [checkID] [tier]: run a check against a seed agent's worktree (/tmp/seed2/<ID>) with its patch
 # out/<n>/patch.diff applied, using a private copy of /verif (/tmp/verif2) so that /repo and /verif are untouched.
 ID="$1"; N="$2"; CK="${3:-$1}"; TIER="${4:-quick}"
-WT=${SEEDROOT:-/tmp/seed4}/$ID
+WT=${SEEDROOT:-/tmp/seed5}/$ID
 cd $WT || exit 2
 git checkout -q -- . ; git apply --exclude='out/*' out/$N/patch.diff || { echo "patch does not apply"; exit 2; }
 rsync -a --delete --exclude .work --exclude .git --exclude replays --exclude evidence /verif/ /tmp/verif2/
